@@ -1190,6 +1190,10 @@ def solve(objfun, x0, h=None, lh=None, prox_uh=None, argsf=(), argsh=(), argspro
         # (same outcome as Controller.soft_restart reports when it cannot restart)
         exit_info = ExitInformation(EXIT_MAXFUN_WARNING, "Objective has been called MAXFUN times")
 
+    if exit_info.flag == EXIT_SUCCESS and not np.isfinite(objmin):
+        # e.g. every evaluation overflowed: the radius tests can still be met, but this is not a solution
+        exit_info = ExitInformation(EXIT_EVAL_ERROR, "No finite objective value was found")
+
     # Process final return values & package up
     exit_flag = exit_info.flag
     exit_msg = exit_info.message(with_stem=True)
